@@ -30,7 +30,11 @@ def unescape(string):
 def _replace_charref(match):
     name = match.group(1)
     if name[0] == '#':
-        return html.unescape(match.group(0))
+        # (not html.unescape(): it reads &#128; to &#159; as Windows-1252 and drops some control characters)
+        code_point = int(name[2:-1], 16) if name[1] in 'xX' else int(name[1:-1])
+        if code_point == 0 or code_point > 0x10FFFF or 0xD800 <= code_point <= 0xDFFF:
+            return '\uFFFD'
+        return chr(code_point)
     return html5_entities.get(name, match.group(0))
 
 
